@@ -30,6 +30,27 @@ func init() {
 				Rename: map[string]string{"opt()": "opt", "securecookie.New()": "Hand.securecookieNew", "http.SameSiteLaxMode": "Http.SameSiteLaxMode"}},
 		},
 	})
+	// (round 5, seeded C17-P) what the two handlers READ of a constructed relying party: the getters of *relyingParty over the Go
+	// layout of Model/RPConstruct.lean (the layout the regenerated constructors of Generated/RPConstruct.lean fill in). Together
+	// with GenC01.NewRelyingPartyOIDC / NewRelyingPartyOAuth / the rp.Option functions (imported, not regenerated twice)
+	// Proofs/C17Construct.lean proves: a relying party built with WithPKCE answers IsPKCE() = true, whatever the discovery document.
+	rpGetter := func(name, ret string) FuncSpec {
+		return FuncSpec{File: "pkg/client/rp/relying_party.go", Name: "relyingParty." + name, Lean: name,
+			Params: []string{"(rp : RPCRelyingParty)"}, Ret: RetVal, RetType: ret}
+	}
+	extraGroups = append(extraGroups, Group{
+		Out:     "RPGetters.lean",
+		NS:      "GenC17",
+		Imports: []string{"OidcModel.Model.RPConstruct"},
+		Opens:   []string{"Go", "Hand", "Const"},
+		Funcs: []FuncSpec{
+			rpGetter("IsPKCE", "Bool"),
+			rpGetter("CookieHandler", "(Option Nat)"),
+			rpGetter("OAuthConfig", "RPCOAuthConfig"),
+			rpGetter("Signer", "(Option Nat)"),
+			rpGetter("Issuer", "String"),
+		},
+	})
 	extraGroups = append(extraGroups, []Group{
 		{Out: "RPTables.lean", Imports: []string{"OidcModel.Model.OP"}, Opens: []string{"Const"}, Extra: rpHandlerTables},
 		{
